@@ -1,0 +1,58 @@
+//go:build verif
+
+// Machine-checked contracts for package agentstorage (comment-only; read by /verif/govc).
+// Property C14: no piece index or payload length chosen by a remote peer makes the torrent panic
+// or touch bytes outside the blob.
+//
+// twf(t) is the shape NewTorrent builds: well-formed metainfo geometry (core.miwf) and one
+// non-nil piece per metainfo piece. The safety contracts below put NO condition on pi and src:
+// those come from the wire.
+
+package agentstorage
+
+//@ specfunc twf(t *Torrent) bool = t != nil && t.metaInfo != nil && t.metaInfo.info.PieceLength > 0 && t.metaInfo.info.Length >= 0 && t.metaInfo.info.Length <= 4611686018427387904 && len(t.metaInfo.info.PieceSums) == npieces(t.metaInfo.info.Length, t.metaInfo.info.PieceLength) && len(t.pieces) == len(t.metaInfo.info.PieceSums) && (forall i int :: 0 <= i && i < len(t.pieces) ==> t.pieces[i] != nil) && t.numComplete != nil && t.committed != nil && t.cads != nil
+
+// A piece's status is one of empty, complete, dirty; it is guarded by the piece's own lock.
+//@ lockinv piece.RWMutex self p guards status
+//@   invariant known_status: p.status == _empty || p.status == _complete || p.status == _dirty
+
+//@ func Torrent.NumPieces
+//@   requires t != nil
+//@   nopanic
+//@   ensures result == len(t.pieces)
+
+//@ func Torrent.PieceLength
+//@   requires twf(t)
+//@   nopanic
+//@   ensures out_of_range: (pi < 0 || pi >= len(t.pieces)) ==> result == 0
+//@   ensures in_range: 0 <= pi && pi < len(t.pieces) ==> 0 < result && result <= t.metaInfo.info.PieceLength
+//@   ensures layout: 0 <= pi && pi < len(t.pieces) ==> result == plen(t.metaInfo.info.Length, t.metaInfo.info.PieceLength, pi)
+
+// getPiece: any index; an error for every index outside [0, NumPieces).
+//@ func Torrent.getPiece
+//@   requires twf(t)
+//@   nopanic
+//@   ensures in_range: result1 == nil ==> 0 <= pi && pi < len(t.pieces) && result0 == t.pieces[pi] && result0 != nil
+//@   ensures rejected: (pi < 0 || pi >= len(t.pieces)) ==> result1 != nil
+
+//@ func Torrent.HasPiece
+//@   requires twf(t)
+//@   nopanic
+//@   ensures (pi < 0 || pi >= len(t.pieces)) ==> !result
+
+// GetPieceReader: a reader is built only for an index inside the torrent (its offset and length are
+// then those of that piece, inside the blob by the metainfo geometry).
+//@ func Torrent.GetPieceReader
+//@   requires twf(t)
+//@   nopanic
+//@   assert index_in_torrent: at piecereader.NewFileReader#0 :: 0 <= pi && pi < len(t.pieces)
+//@   ensures rejected: (pi < 0 || pi >= len(t.pieces)) ==> result1 != nil
+
+// WritePiece: an index outside the torrent or a payload whose length is not the piece's length is
+// rejected before anything is written.
+//@ func Torrent.WritePiece
+//@   requires twf(t) && src != nil
+//@   nopanic
+//@   modifies *
+//@   assert write_in_torrent: at Torrent.writePiece#0 :: 0 <= pi && pi < len(t.pieces) && src.length == plen(t.metaInfo.info.Length, t.metaInfo.info.PieceLength, pi)
+//@   ensures rejected: (pi < 0 || pi >= len(t.pieces)) ==> result != nil
